@@ -139,6 +139,17 @@ def known_for(prop: str) -> dict[tuple[str, str], dict[str, Any]]:
     return out
 
 
+def _what_part(construct: str) -> str:
+    """the part of a construct key that says WHAT is reported, without WHERE: keys are `<function>::<what>` for Python constructs and
+    `<template>::<macro or scope>::<what...>` for template constructs.  Empty when the key has no such part."""
+    parts = construct.split("::")
+    if len(parts) >= 3 and parts[0].endswith(".jinja"):
+        return "::".join(parts[2:])
+    if len(parts) >= 2:
+        return "::".join(parts[1:])
+    return ""
+
+
 # ---------------------------------------------------------------------------
 # running a property check
 # ---------------------------------------------------------------------------
@@ -155,6 +166,30 @@ def finish(rep: Report, level_text: str) -> int:
         e = known[f.key]
         print(f"KNOWN-FINDING: property={rep.prop} {f.rule} {f.construct} :: {e.get('what', f.message)}")
     stale = [k for k in known if k not in {f.key for f in rep.findings}]
+    # A listed finding whose construct has *moved*: it is no longer observed where it was listed and the same rule reports the same
+    # construct (same expression / role text, same context) at exactly one place where nothing was listed - the code around the defect was
+    # restructured (a macro extracted, a helper introduced, a template split), the defect is the listed one.  Matched one to one: a second
+    # occurrence next to a listed one that is still observed is a new violation.
+    moved: dict[tuple[str, str], Finding] = {}
+    by_what: dict[tuple[str, str], list[tuple[str, str]]] = {}
+    for k in stale:
+        by_what.setdefault((k[0], _what_part(k[1])), []).append(k)
+    cand: dict[tuple[str, str], list[Finding]] = {}
+    for f in new:
+        cand.setdefault((f.rule, _what_part(f.construct)), []).append(f)
+    for wk, olds in by_what.items():
+        fs = cand.get(wk, [])
+        distinct = {f.construct for f in fs}
+        if wk[1] and len(olds) == 1 and len(distinct) == 1:
+            moved[olds[0]] = fs[0]
+    if moved:
+        gone = {f.key for f in moved.values()}
+        new = [f for f in new if f.key not in gone]
+        for k, f in moved.items():
+            seen_keys.add(k)
+            hit.append(f)
+            print(f"KNOWN-FINDING: property={rep.prop} {k[0]} {k[1]} :: {known[k].get('what', f.message)} [the construct has moved: now {f.construct}]")
+        stale = [k for k in stale if k not in moved]
     for k in stale:
         # a listed finding that no longer occurs is not an alarm; say so for whoever maintains the file
         print(f"note: known finding no longer observed (repaired?): property={rep.prop} {k[0]} {k[1]}")
